@@ -37,7 +37,7 @@ PROP = "C20"
 KW = dict(kind="bounded", engine="smallscope", backend="runtime-contract")
 
 
-def info(prop):
+def _info_bounded(prop):
     return {
         "level": "other",
         "functions": ["gaddlemaps/_cli.py::classify_files", "gaddlemaps/_cli.py::sort_molecules",
@@ -1361,7 +1361,7 @@ def _fact(n):
     return r
 
 
-def tasks(prop, tier, seed):
+def _tasks_bounded(prop, tier, seed):
     thorough = tier == "thorough"
     ts = [("classify_files/names", task_classify, (seed,), 120.0),
           ("sort_molecules/guards", task_sort_guards, (seed,), 120.0),
@@ -1442,7 +1442,7 @@ def tasks(prop, tier, seed):
 # ---------------------------------------------------------------------------
 # replay on the real code
 
-def replay(prop, cex):
+def _replay_bounded(prop, cex):
     kind = cex.get("kind")
     if kind == "classify":
         from gaddlemaps import _cli
@@ -1545,3 +1545,43 @@ def _replay_sort(cex):
         return {"reproduced": False, "note": note, "inputs": cex}
     finally:
         shutil.rmtree(root, ignore_errors=True)
+
+
+# ---------------------------------------------------------------------------
+# deductive part (contracts/d20_cli_vc.py) wired in
+
+
+def info(prop):
+    from . import d20_cli_vc as D
+    d = _info_bounded(prop)
+    h = D.deductive_info()
+    d["functions"] = h["functions"] + [f for f in d.get("functions", []) if not f.endswith(("::main", "::classify_files"))]
+    d["stubs"] = h["stubs"] + d.get("stubs", [])
+    d["assumptions"] = h["assumptions"] + d.get("assumptions", [])
+    d["explanation"] = h["explanation"] + d.get("explanation", "").replace("Bounded contract checks only, nothing deductive. ", "Bounded part (run-time contract checks): ")
+    d["trusted_base"] = ["z3 5.1", "vf/pyvc.py + vf/seq.py"] + d.get("trusted_base", [])
+    return d
+
+
+def tasks(prop, tier, seed):
+    from . import d20_cli_vc as D
+    return list(D.deductive_tasks(prop, tier, seed)) + list(_tasks_bounded(prop, tier, seed))
+
+
+def replay(prop, cex):
+    if cex.get("kind") == "vc":
+        # a failed proof obligation of main()'s assembly loop: look for an argument vector on which the real main() misbehaves
+        cand = [t for t in _tasks_bounded(prop, "quick", 0) if t[0].startswith("main/")][:6]
+        for name, fn, args, _lim in cand:
+            try:
+                obs = fn(*args)
+            except Exception:
+                continue
+            for o in obs:
+                if o.get("status") == "refuted" and o.get("kind") != "guard" and o.get("cex"):
+                    r = _replay_bounded(prop, o["cex"])
+                    if r and r.get("reproduced"):
+                        r["note"] = f"failed obligation {cex.get('obligation') or cex.get('clause') or cex.get('signature')} manifests on the real main()"
+                        return r
+        return {"reproduced": False, "inputs": cex, "note": "no failing argument vector found in the bounded scope"}
+    return _replay_bounded(prop, cex)
